@@ -1,56 +1,50 @@
-(* Assembly: every covered operation preserves WF and never reaches UB from a WF state; hence every state reachable from the
-   empty state by covered, well-typed operations is WF.  Corollaries: nothing leaks, a dead storage has no holder. *)
+(* Assembly: EVERY operation of M2 preserves WF and never reaches UB from a WF state; hence every state reachable from the
+   empty state by well-typed operations is WF.  Corollaries: nothing leaks, a dead storage has no holder, counts are exact. *)
 From stdpp Require Import gmap.
 From Coq Require Import NArith Lia String.
 From BV Require Import Base BaseLemmas BufMut Heap HeapLaws HeapPanic HeapWF HeapWFPrim HeapWFOps.
 Local Open Scope N_scope.
 
-(* the operations for which the invariant proof is complete (the remaining ones are listed in Properties/C02.v) *)
-Definition covered (o : op) : bool :=
-  match o with
-  | OBNew | OBFromStatic _ | OBFromVec _ _ | OBFromOwner _ _ | OMNew | OMWithCapacity _ | OMZeroed _ | OMFromSlice _
-  | OBClone _ | OBSlice _ _ _ | OBSliceIncl _ _ _ | OBSliceRef _ _ | OBSplitOff _ _ | OBSplitTo _ _ | OBTruncate _ _ | OBClear _ | OBAdvance _ _
-  | OBIsUnique _ | OBTryIntoMut _ | OBIntoMut _ | OBIntoVec _ | OBDrop _ | OMClone _ | OMDrop _ | OMTruncate _ _ | OMClear _ | OMWrite _ _ _ | OVIntoBytes _ | OVDrop _
-  | OMSplitOff _ _ | OMSplitTo _ _ | OMSplit _ | OMAdvance _ _ | OMFreeze _ | OMIntoVec _ => true
-  | _ => false
-  end.
-Lemma covered_wfstep orc o : covered o = true -> wfstep orc o.
+Lemma all_wfstep orc o : wfstep orc o.
 Proof.
-  destruct o; simpl; try discriminate; intros _.
+  destruct o.
   - apply wf_OBNew. - apply wf_OBFromStatic. - apply wf_OBFromVec. - apply wf_OBFromOwner.
   - apply wf_OMNew. - apply wf_OMWithCapacity. - apply wf_OMZeroed. - apply wf_OMFromSlice.
   - apply wf_OBClone. - apply wf_OBSlice. - apply wf_OBSliceIncl. - apply wf_OBSliceRef. - apply wf_OBSplitOff. - apply wf_OBSplitTo.
   - apply wf_OBTruncate. - apply wf_OBClear. - apply wf_OBAdvance. - apply wf_OBIsUnique. - apply wf_OBTryIntoMut. - apply wf_OBIntoMut. - apply wf_OBIntoVec. - apply wf_OBDrop.
-  - apply wf_OMSplitOff. - apply wf_OMSplitTo. - apply wf_OMSplit. - apply wf_OMTruncate. - apply wf_OMClear. - apply wf_OMWrite. - apply wf_OMFreeze.
+  - apply wf_OMSplitOff. - apply wf_OMSplitTo. - apply wf_OMSplit. - apply wf_OMTruncate. - apply wf_OMClear. - apply wf_OMResize. - apply wf_OMReserve. - apply wf_OMTryReclaim.
+  - apply wf_OMExtend. - apply wf_OMExtendIter. - apply wf_OMWrite. - apply wf_OMUnsplit. - apply wf_OMFreeze.
   - apply wf_OMIntoVec. - apply wf_OMAdvance. - apply wf_OMClone. - apply wf_OMDrop.
   - apply wf_OVIntoBytes. - apply wf_OVDrop.
 Qed.
 
-Theorem wf_preserved orc o s : covered o = true -> WF s -> op_ok s o ->
+(* op_ok s o: the handles the operation names exist and have the right type (Bytes / BytesMut / Vec; unsplit: two different handles) *)
+Theorem wf_preserved orc o s : WF s -> op_ok s o ->
   match run_op orc o s with OK _ s' _ => WF s' | PANIC s' _ => WF s' | UB _ => False end.
 Proof.
-  intros Hc W Hok. unfold run_op. pose proof (covered_wfstep orc o Hc s W Hok []) as H.
+  intros W Hok. unfold run_op. pose proof (all_wfstep orc o s W Hok []) as H.
   destruct (hstep orc o s []) as [r s' e'|s' e'|why] eqn:E; [exact H| |exact H].
   destruct (clean_panic_op o) eqn:Ecp.
   - pose proof (panics_are_clean orc o Ecp s []) as Hp. rewrite E in Hp. destruct Hp as [-> _]. exact W.
-  - destruct o; try discriminate Ecp; try discriminate Hc.
+  - destruct o; try discriminate Ecp.
     + destruct panics; [|discriminate]. pose proof (from_owner_wf orc d true s W []) as Hp. rewrite E in Hp. exact Hp.
+    + pose proof (extend_iter_wfp orc h d hint s W Hok []) as Hp. rewrite E in Hp. exact Hp.
     + pose proof (freeze_never_panics orc h s []) as Hn. by rewrite E in Hn.
 Qed.
 
 (* histories *)
 Inductive reach (orcs : nat -> oracle) : nat -> hst -> Prop :=
 | reach0 odd : reach orcs 0 (hst0 odd)
-| reach_ok n s o r s' e : reach orcs n s -> covered o = true -> op_ok s o -> run_op (orcs n) o s = OK r s' e -> reach orcs (S n) s'
-| reach_panic n s o s' e : reach orcs n s -> covered o = true -> op_ok s o -> run_op (orcs n) o s = PANIC s' e -> reach orcs (S n) s'.
+| reach_ok n s o r s' e : reach orcs n s -> op_ok s o -> run_op (orcs n) o s = OK r s' e -> reach orcs (S n) s'
+| reach_panic n s o s' e : reach orcs n s -> op_ok s o -> run_op (orcs n) o s = PANIC s' e -> reach orcs (S n) s'.
 Theorem reach_wf orcs n s : reach orcs n s -> WF s.
 Proof.
-  induction 1 as [odd|n s o r s' e Hr IH Hc Hok Hrun|n s o s' e Hr IH Hc Hok Hrun]; [apply wf0| |].
-  - pose proof (wf_preserved (orcs n) o s Hc IH Hok) as H. by rewrite Hrun in H.
-  - pose proof (wf_preserved (orcs n) o s Hc IH Hok) as H. by rewrite Hrun in H.
+  induction 1 as [odd|n s o r s' e Hr IH Hok Hrun|n s o s' e Hr IH Hok Hrun]; [apply wf0| |].
+  - pose proof (wf_preserved (orcs n) o s IH Hok) as H. by rewrite Hrun in H.
+  - pose proof (wf_preserved (orcs n) o s IH Hok) as H. by rewrite Hrun in H.
 Qed.
-Theorem reach_no_ub orcs n s o why : reach orcs n s -> covered o = true -> op_ok s o -> run_op (orcs n) o s <> UB why.
-Proof. intros Hr Hc Hok E. pose proof (wf_preserved (orcs n) o s Hc (reach_wf _ _ _ Hr) Hok) as H. by rewrite E in H. Qed.
+Theorem reach_no_ub orcs n s o why : reach orcs n s -> op_ok s o -> run_op (orcs n) o s <> UB why.
+Proof. intros Hr Hok E. pose proof (wf_preserved (orcs n) o s (reach_wf _ _ _ Hr) Hok) as H. by rewrite E in H. Qed.
 
 (* with no handle left, every heap buffer and every owner's memory has been released *)
 Theorem wf_no_leak s k st : WF s -> hs s = ∅ -> sts s !! k = Some st -> (s_cls st = SHeap \/ s_cls st = SOwnerMem) -> s_live st = false.
@@ -69,4 +63,20 @@ Theorem wf_count_is_holders s k st cap rc : WF s -> sts s !! k = Some st -> s_li
 Proof.
   intros [L _] Hs Hl Hc. pose proof (lwf_st _ _ L _ _ Hs) as Hok. unfold st_ok in Hok. rewrite Hl, Hc in Hok.
   destruct (s_cls st); try (exfalso; clear -Hok; naive_solver). by destruct Hok as (_ & _ & ? & _).
+Qed.
+(* exclusivity (C04): the non-empty windows of two different shared BytesMut handles on one buffer never overlap, and lie inside it *)
+Theorem wf_windows_disjoint s h1 h2 k o1 l1 c1 o2 l2 c2 : WF s -> h1 <> h2 -> hs s !! h1 = Some (HM k o1 l1 c1 MArc) -> hs s !! h2 = Some (HM k o2 l2 c2 MArc) ->
+  c1 = 0 \/ c2 = 0 \/ o1 + c1 <= o2 \/ o2 + c2 <= o1.
+Proof. intros [L _] Hne H1 H2. eapply (lwf_disj _ _ L h1 h2); eauto. Qed.
+Theorem wf_window_in_bounds s h k o l c kd : WF s -> hs s !! h = Some (HM k o l c kd) -> exists st, sts s !! k = Some st /\ s_live st = true /\ o + c <= s_size st /\ l <= c.
+Proof.
+  intros [L _] Hx. pose proof (lwf_typed _ _ L _ _ Hx) as Hty. destruct kd; simpl in Hty; destruct Hty as (st & ? & ? & ? & ? & ? & ?); exists st; repeat split; try done; lia.
+Qed.
+(* uniqueness (C08): is_unique answers true exactly when the handle is the only holder of its storage *)
+Theorem wf_is_unique_iff_sole s h k ofs len arc b s' e e' : WF s -> hs s !! h = Some (HB (Some k) ofs len VShared arc) ->
+  bytes_is_unique_rep (HB (Some k) ofs len VShared arc) s e = OK b s' e' -> (b = true <-> refs (hs s) k = 1%nat).
+Proof.
+  intros [L _] Hx. pose proof (lwf_typed _ _ L _ _ Hx) as (st & Hs & Hl & Hb & Hcl & rc & Hc).
+  pose proof (lwf_st _ _ L _ _ Hs) as Hok. unfold st_ok in Hok. rewrite Hcl, Hl, Hc in Hok. destruct Hok as (_ & _ & -> & Hn).
+  unfold bytes_is_unique_rep, get_rc, mbind, get_st, mret. rewrite Hs, Hc. intros [= <- _ _]. split; intros H; lia.
 Qed.
